@@ -60,35 +60,87 @@ def run_prefix(sc, testbin, job, shard, nshard, idx):
     return res[-1] if res else None
 
 
-def run_bubbles(sc, testbin, job, nshard, timeout=1800, gomaxprocs=2):
+CHANNEL_PANICS = ("send on closed channel", "close of closed channel")
+
+
+def run_process(sc, testbin, j, timeout, gomaxprocs):
+    """One OS process of the bubble driver. Returns (results, finished, died) where died is a synthetic result
+    for the cell during which the process was killed by a channel-misuse panic in a goroutine of the library
+    (such a panic cannot be recovered by the caller: the whole process dies, which is the violation)."""
     outdir = os.path.join(sc.dir, "bubble")
     os.makedirs(outdir, exist_ok=True)
-
-    def shard(i):
-        j = dict(job, shard=i, nshard=nshard, out=os.path.join(outdir, "out-%d-%d.jsonl" % (os.getpid(), i)))
-        jf = os.path.join(outdir, "job-%d-%d.json" % (os.getpid(), i))
-        json.dump(j, open(jf, "w"))
-        env = dict(vlib.ENV)
-        env.update({"SIM_JOB": jf, "GODEBUG": "asynctimerchan=0", "GOMAXPROCS": str(gomaxprocs)})
-        try:
-            p = subprocess.run([testbin, "-test.run", "TestBubble", "-test.timeout", "0"], env=env, capture_output=True, text=True, timeout=timeout)
-        except subprocess.TimeoutExpired:
-            raise HarnessError("watchdog: bubble shard %d did not finish in %ds" % (i, timeout))
-        res = []
-        donef = False
-        if os.path.exists(j["out"]):
-            for ln in open(j["out"]):
-                ln = ln.strip()
-                if not ln:
-                    continue
+    tag = "%d-%d-%d" % (os.getpid(), j.get("shard", 0), int.from_bytes(os.urandom(4), "big"))
+    j = dict(j, out=os.path.join(outdir, "out-%s.jsonl" % tag))
+    jf = os.path.join(outdir, "job-%s.json" % tag)
+    json.dump(j, open(jf, "w"))
+    env = dict(vlib.ENV)
+    env.update({"SIM_JOB": jf, "GODEBUG": "asynctimerchan=0", "GOMAXPROCS": str(gomaxprocs)})
+    try:
+        p = subprocess.run([testbin, "-test.run", "TestBubble", "-test.timeout", "0"], env=env, capture_output=True, text=True, timeout=timeout)
+    except subprocess.TimeoutExpired:
+        raise HarnessError("watchdog: bubble process (shard %s) did not finish in %ds" % (j.get("shard"), timeout))
+    res, finished, last_start = [], False, None
+    if os.path.exists(j["out"]):
+        for ln in open(j["out"]):
+            ln = ln.strip()
+            if not ln.startswith("{"):
+                continue
+            try:
                 r = json.loads(ln)
-                if "shard_done" in r:
-                    donef = True
-                else:
-                    res.append(r)
-        if not donef and "replay" not in job and "replay_until" not in job:
-            raise HarnessError("bubble shard %d ended unexpectedly (rc=%d): %s %s" % (i, p.returncode, p.stdout[-2000:], p.stderr[-2000:]))
-        return res
+            except ValueError:
+                continue
+            if "shard_done" in r:
+                finished = True
+            elif "started" in r:
+                last_start = r
+            else:
+                res.append(r)
+                last_start = None
+    os.unlink(jf)
+    if os.path.exists(j["out"]):
+        os.unlink(j["out"])
+    died = None
+    if not finished and last_start is not None:
+        text = p.stdout + p.stderr
+        hit = next((m for m in CHANNEL_PANICS if "panic: " + m in text), None)
+        if hit:
+            died = {"cell": last_start["cell"], "idx": last_start["started"], "shard": j.get("shard", 0), "nshard": j.get("nshard", 1), "events": [], "times": [],
+                    "closed": True, "returned": ["panic:" + hit + " (in a goroutine the library started: the process died)"], "steps": 0, "sim_ns": 0,
+                    "choices": [], "dts": [], "sels": [], "process_died": True, "probes": {}}
+        else:
+            raise HarnessError("bubble process ended unexpectedly (rc=%d) in cell %s: %s %s" % (p.returncode, json.dumps(last_start["cell"])[:300], p.stdout[-1500:], p.stderr[-1500:]))
+    elif not finished and "replay" not in j and "replay_until" not in j:
+        raise HarnessError("bubble process ended unexpectedly (rc=%d): %s %s" % (p.returncode, p.stdout[-1500:], p.stderr[-1500:]))
+    return res, finished, died
+
+
+def run_prefix(sc, testbin, job, shard, nshard, idx):
+    """Re-executes the cells of one shard up to idx in one process; returns the result of cell idx."""
+    j = dict(job, shard=shard, nshard=nshard, replay_until={"idx": idx})
+    j.pop("replay", None)
+    res, finished, died = run_process(sc, testbin, j, 1800, 2)
+    if died:
+        return died
+    res = [r for r in res if "cell" in r]
+    return res[-1] if res else None
+
+
+def run_bubbles(sc, testbin, job, nshard, timeout=1800, gomaxprocs=2):
+    def shard(i):
+        out = []
+        skip = 0
+        for _ in range(200):
+            j = dict(job, shard=i, nshard=nshard, skip_until=skip)
+            res, finished, died = run_process(sc, testbin, j, timeout, gomaxprocs)
+            out += res
+            if died:
+                out.append(died)
+                if "replay" in job:
+                    break
+                skip = died["idx"]  # resume the shard after the cell that killed the process
+                continue
+            break
+        return out
 
     out = []
     with ThreadPoolExecutor(max_workers=nshard) as ex:
